@@ -575,10 +575,10 @@ func Run(c *fw.Ctx) {
 		"the layout Chunker's MaxChunkSize is not a SizeConfig hard maximum: its paths are checked for termination, conservation, UTF-8 and overlap only",
 		"termination = a batch of <= 20 cases finishes within 20 s of CPU time (healthy cases cost milliseconds); a failing batch is re-run case by case")
 
-	nSplit := c.N(6000, 400000)
-	nOverlap := c.N(2500, 120000)
-	nDoc := c.N(800, 30000)
-	nLayout := c.N(800, 30000)
+	nSplit := c.N(6000, 1000000)
+	nOverlap := c.N(2500, 300000)
+	nDoc := c.N(800, 80000)
+	nLayout := c.N(800, 80000)
 	type job struct {
 		kind string
 		i    int
